@@ -20,7 +20,7 @@ def _cases(path, tag):
 
 
 # ------------------------------------------------------------------------------------------ C07
-FORMAT_CFG = 'SPECIFICATION Spec\nCONSTANTS\n  Export = "cases"\nINVARIANTS RuleLemmas EncodeLemma ExportCases ExportMeta CaseCount\nCHECK_DEADLOCK FALSE\n'
+FORMAT_CFG = 'SPECIFICATION Spec\nCONSTANTS\n  Export = "cases"\n  Deep = %s\nINVARIANTS RuleLemmas EncodeLemma ExportCases ExportMeta CaseCount\nCHECK_DEADLOCK FALSE\n'
 
 
 def run_c07(tier, seed):
@@ -28,7 +28,7 @@ def run_c07(tier, seed):
     wd = scratch("wv-C07-")
     try:
         binp = build_harness(wd)
-        res = run_tlc(wd, "WhisperFormat", FORMAT_CFG, "fmt", 2, 3000)
+        res = run_tlc(wd, "WhisperFormat", FORMAT_CFG % ("TRUE" if tier == "thorough" else "FALSE"), "fmt", 2, 3000)
         require_clean_mc(res, "WhisperFormat")
         n = _cases(res["path"], "FORMAT_CASES")
         outj = os.path.join(wd, "fmt.json")
@@ -145,7 +145,7 @@ def run_c19(tier, seed):
 
 
 # ------------------------------------------------------------------------------------------ C14 / C15
-CODEC_CFG = 'SPECIFICATION Spec\nCONSTANTS\n  Export = "codec"\nINVARIANTS FramingLaws ConcatLaw HostileLaws BufBounded ExportFraming ExportHostile CodecCount\nPROPERTIES Terminates\n'
+CODEC_CFG = 'SPECIFICATION Spec\nCONSTANTS\n  Export = "codec"\n  MaxCount = %d\nINVARIANTS FramingLaws ConcatLaw HostileLaws BufBounded ExportFraming ExportHostile CodecCount\nPROPERTIES Terminates\n'
 
 
 def run_codec(prop, tier, seed):
@@ -153,7 +153,7 @@ def run_codec(prop, tier, seed):
     wd = scratch("wv-%s-" % prop)
     try:
         binp = build_harness(wd)
-        res = run_tlc(wd, "WhisperCodec", CODEC_CFG, "codec", 2, 3000)
+        res = run_tlc(wd, "WhisperCodec", CODEC_CFG % (3 if tier == "quick" else 8), "codec", 2, 3000)
         require_clean_mc(res, "WhisperCodec")
         outj = os.path.join(wd, "out.json")
         if prop == "C14":
@@ -174,7 +174,7 @@ def run_codec(prop, tier, seed):
                    "samples": r["samples"] or ["none"], "exhaustive": True, "frame_cases_x_value_sets": r["frame_cases"], "concatenation_pairs": r["pairs"],
                    "explanation": "TLC checks the framing laws for every shape x prefix length x trailing length and the termination of the retry loop (temporal property under fairness); every exported case is instantiated with 16 adversarial value sets (NaN payloads, signed zero, infinities, subnormals, 17-digit values; times 0, 1, 2^31-1, 2^31, 2^32-1) and run through AppendTo/TakeFrom"}
             return v.finish("model_checking", cov, ["values are opaque 8-byte words in the specification; coverage of float64 bit patterns is by instantiation of a finite token set",
-                                                     "message shapes: headers of 1-3 archives, series of 0-3 values, point lists of 0-3 points, point, value, timestamp, duration"])
+                                                     "message shapes: headers of 1-3 (thorough: 1-8) archives, series and point lists of 0-3 (thorough: 0-8) elements, point, value, timestamp, duration"])
         cov = {"evaluations": r["evaluations"], "distinct_nontrivial": r["grid_cases"] + r["mutations"],
                "rule": "field-class grid of WhisperCodec.tla (decoder x count class x step class x range class x available-bytes class; 2400 cases, each distinct by construction) instantiated as bytes, the header cases also as files given to Open, plus seeded mutations of valid files (truncation, header bit flips, extreme header fields, body cut, random bytes, noise) each run through Open + every read/write entry point; a case is non-trivial when its bytes differ from a valid encoding",
                "samples": r["samples"] or ["none"], "grid_cases": r["grid_cases"], "mutations": r["mutations"], "child_crashes": r["child_crashes"],
